@@ -302,3 +302,6 @@ META = dict(
     assumptions=["'unchanged' = instance dict keys, simple attribute values, helper registries and the deep candle snapshot (OHLCV, timestamps, every stored reading as a term)"],
     explanation="programs interleaving read-only calls with appends over symbolic candles; state snapshots term-compared; the solver decides every non-identical leaf",
 )
+
+# families added after the seeding rounds (kept next to the original bound so that MANIFEST / evidence stay current)
+META["bounds"] = dict(META["bounds"], quick=META["bounds"]["quick"] + "; added after the seeding rounds: " + "membership changes half way; dicts with extra keys; aware-datetime / ISO '+00:00' / ISO 'Z' encodings; a Hexital-level-timeframe host; candles that already carry a reading")
